@@ -1,17 +1,124 @@
 (* C12 - Transfer lifecycle: exact transfer counts, removal semantics, reads terminate. *)
-From FluteV Require Import Model.SenderCtl Spec.SenderSpec Proofs.SenderProofs.
+From FluteV Require Import Model.SenderCtl Spec.SenderSpec Proofs.SenderProofs Proofs.C12Full.
 Open Scope N_scope.
 
-(* Full statement (kept visible; evaluated on the implementation's traces as P_C12_wire and
-   P_C12_counter on every run; proved so far through the mechanisms below - partial):
-   every run of the model satisfies P_C12_wire (never more than max_transfer_count transfers of a
-   non-carousel object; after removal at most the rest of the current transfer, or one flagged
-   packet) and P_C12_counter after every operation, and at a fixed instant repeated reads
-   reach "nothing to send" after finitely many packets. *)
-Definition C12_lifecycle_full : Prop :=
+(* ---------------------------------------------------------------------------------------------
+   History level.  The unconditional statement "every run of the model satisfies P_C12_wire" is
+   FALSE of the model; two independent counterexamples, each closed by computation:
+   (a) two accepted adds with the same TOI (the model's OpAdd takes the TOI from its caller; the
+       real TOI allocator keeps live TOIs distinct): the packets of the first object are charged
+       to the most recent object with that TOI;
+   (b) a non-carousel object configured with max_transfer_count = 0 is transferred once
+       (should_transfer_now returns true when the count is not below the maximum and there is
+       no carousel; is_expired removes it only after that transfer) - also true of the Rust code
+       (filedesc.rs should_transfer_now / is_expired).
+   Under the premise c12_adds_okb / ops_adds_okb (accepted adds have pairwise distinct TOIs, and
+   max_transfer_count >= 1 unless carousel) the statement is proved for every run. *)
+Definition C12_lifecycle_unconditional : Prop :=
   forall fdt_npk fdt_ok divf ops full dur car sid queues,
     let tr := model_trace fdt_npk fdt_ok divf (init_st full dur car sid queues) ops in
     P_C12_wire (map fst tr) = true.
+
+Definition c12_ex_run (ops : list op) : list (tev * st) :=
+  model_trace (fun _ => 1%nat) (fun _ => true) (fun d n => Some (d / Z.of_N n)%Z)
+              (init_st true 3600000000000 (CDelay 1000000000) 1 [(0, 1%nat)]) ops.
+Definition c12_ex_final (ops : list op) : st :=
+  snd (run_ops (fun _ => 1%nat) (fun _ => true) (fun d n => Some (d / Z.of_N n)%Z)
+               (init_st true 3600000000000 (CDelay 1000000000) 1 [(0, 1%nat)]) ops).
+
+(* (a) add TOI 1 (3 packets, 1 transfer), add TOI 1 again (1 packet, 1 transfer), publish, 4 reads:
+   FDT, then 3 packets RObj 1 - the second exceeds the budget of the most recent object with TOI 1 *)
+Example C12_wire_refuted_duplicate_toi :
+  let odA := mk_odesc 1 0 3 3 1 CNone TNone false None [] in
+  let odB := mk_odesc 1 0 1 1 1 CNone TNone false None [] in
+  let ops := [OpAdd odA None true; OpAdd odB None true; OpPublish 0; OpRead 0; OpRead 0; OpRead 0; OpRead 0] in
+  P_C12_wire (map fst (c12_ex_run ops)) = false /\ ops_adds_okb (fun _ => true) [] ops = false.
+Proof. vm_compute. split; reflexivity. Qed.
+
+(* (b) add TOI 1 with max_transfer_count = 0 (2 packets, no carousel), publish, reads:
+   FDT, RObj 1, RObj 1, nothing - two packets of an object allowed none *)
+Example C12_wire_refuted_max_transfer_count_0 :
+  let od := mk_odesc 1 0 2 2 0 CNone TNone false None [] in
+  let ops := [OpAdd od None true; OpPublish 0; OpRead 0; OpRead 0; OpRead 0; OpRead 0] in
+  P_C12_wire (map fst (c12_ex_run ops)) = false
+  /\ map fst (c12_ex_run ops) =
+     [TAdd od None true; TPublish 0 true; TRead 0 (RFdt 1 false) 1 (Some [1]);
+      TRead 0 (RObj 1 false) 0 None; TRead 0 (RObj 1 false) 0 None; TRead 0 RNothing 0 None]
+  /\ ops_adds_okb (fun _ => true) [] ops = false.
+Proof. vm_compute. repeat split; reflexivity. Qed.
+
+Theorem C12_lifecycle_unconditional_refuted : ~ C12_lifecycle_unconditional.
+Proof. exact C12_unconditional_false. Qed.
+Print Assumptions C12_lifecycle_unconditional_refuted.
+
+(* the proved statement; premise on the trace (exactly the accepted adds) *)
+Theorem C12_lifecycle_full :
+  forall fdt_npk fdt_ok divf ops full dur car sid queues,
+    let tr := model_trace fdt_npk fdt_ok divf (init_st full dur car sid queues) ops in
+    c12_adds_okb (fun _ => true) [] (map fst tr) = true ->
+    P_C12_wire (map fst tr) = true.
+Proof. exact C12_wire_holds. Qed.
+Print Assumptions C12_lifecycle_full.
+
+(* the same with the premise on the operations (every OpAdd marked acceptable) *)
+Theorem C12_lifecycle_full_ops :
+  forall fdt_npk fdt_ok divf ops full dur car sid queues,
+    ops_adds_okb (fun _ => true) [] ops = true ->
+    P_C12_wire (map fst (model_trace fdt_npk fdt_ok divf (init_st full dur car sid queues) ops)) = true.
+Proof. exact C12_wire_holds_ops. Qed.
+Print Assumptions C12_lifecycle_full_ops.
+
+(* the counters: after every run (ops is arbitrary, so after every operation) every object of the
+   FDT view has total <= whole transfers on the wire <= total + 1, and a listed non-carousel
+   object has total < max.  Additional premise Pcnt on the accepted adds: TOI <> 0 (TOI 0 is the
+   FDT's; transfer_done never re-queues nor removes a TOI-0 object) and no FDT instance id (an
+   object carrying one is sent as RFdt packets, invisible to the object monitor).  Both are
+   needed: examples below. *)
+Theorem C12_counter_full :
+  forall fdt_npk fdt_ok divf ops full dur car sid queues,
+    let s0 := init_st full dur car sid queues in
+    let tr := model_trace fdt_npk fdt_ok divf s0 ops in
+    c12_adds_okb Pcnt [] (map fst tr) = true ->
+    P_C12_counter (c12_objs [] (map fst tr)) (files_view (snd (run_ops fdt_npk fdt_ok divf s0 ops))) = true.
+Proof. exact C12_counter_holds. Qed.
+Print Assumptions C12_counter_full.
+
+Theorem C12_counter_full_ops :
+  forall fdt_npk fdt_ok divf ops full dur car sid queues,
+    let s0 := init_st full dur car sid queues in
+    ops_adds_okb Pcnt [] ops = true ->
+    P_C12_counter (c12_objs [] (map fst (model_trace fdt_npk fdt_ok divf s0 ops)))
+                  (files_view (snd (run_ops fdt_npk fdt_ok divf s0 ops))) = true.
+Proof. exact C12_counter_holds_ops. Qed.
+Print Assumptions C12_counter_full_ops.
+
+(* an object added with TOI 0 (max 1): after its only transfer it stays listed with total = max *)
+Example C12_counter_refuted_toi_0 :
+  let od := mk_odesc 0 0 1 1 1 CNone TNone false None [] in
+  let ops := [OpAdd od None true; OpPublish 0; OpRead 0; OpRead 0; OpRead 0] in
+  P_C12_counter (c12_objs [] (map fst (c12_ex_run ops))) (files_view (c12_ex_final ops)) = false
+  /\ files_view (c12_ex_final ops) = [(0, 1)]
+  /\ P_C12_wire (map fst (c12_ex_run ops)) = true.
+Proof. vm_compute. repeat split; reflexivity. Qed.
+
+(* an object added with an FDT instance id: its packets leave as RFdt 7, the counter says 1, the
+   object monitor saw none *)
+Example C12_counter_refuted_fdt_id :
+  let od := mk_odesc 1 0 1 1 2 CNone TNone false (Some 7) [] in
+  let ops := [OpAdd od None true; OpPublish 0; OpRead 0; OpRead 0; OpRead 0] in
+  P_C12_counter (c12_objs [] (map fst (c12_ex_run ops))) (files_view (c12_ex_final ops)) = false
+  /\ files_view (c12_ex_final ops) = [(1, 1)]
+  /\ P_C12_wire (map fst (c12_ex_run ops)) = true.
+Proof. vm_compute. repeat split; reflexivity. Qed.
+
+(* non-vacuity of the premises: the run of C12_example below satisfies them *)
+Example C12_premises_satisfiable :
+  let od := mk_odesc 1 0 2 2 2 CNone TNone false None [] in
+  let ops := [OpAdd od None true; OpPublish 0; OpRead 0; OpRead 0; OpRead 0; OpRead 0; OpRead 0; OpRead 0] in
+  ops_adds_okb Pcnt [] ops = true /\ c12_adds_okb Pcnt [] (map fst (c12_ex_run ops)) = true
+  /\ P_C12_wire (map fst (c12_ex_run ops)) = true
+  /\ P_C12_counter (c12_objs [] (map fst (c12_ex_run ops))) (files_view (c12_ex_final ops)) = true.
+Proof. vm_compute. repeat split; reflexivity. Qed.
 
 (* (1) one transfer of an object of n encoding symbols is exactly max(1,n) packets, the close
    flag on the last one iff this is the object's last transfer; then the encoder is drained *)
